@@ -635,6 +635,7 @@ def c07(tier):
                                       "input": c["input"], "maxSteps": 5000, "maxEv": 250} for c in cases])
     want = 450 if tier == "quick" else 8000
     rng = random.Random(sd + 5)
+    refof = {c["id"]: r for c, r in zip(cases, refs)}
     halts = [c for c, r in zip(cases, refs) if r and r.get("class") == "halts"]
     divs = [c for c, r in zip(cases, refs) if r and r.get("class") == "diverges"]
     rng.shuffle(halts)
@@ -658,13 +659,16 @@ def c07(tier):
     rep.count("cases_halting", len(halts))
     rep.count("cases_divergent", len(divs))
     rep.count("limited_runs", sum(len(e[1]) for e in executed))
-    rep.coverage["distinct_nontrivial"] = len(halts) + len(divs)
+    # non-trivial: the budget can actually run out - at least two loop iterations in the canonical run
+    rep.coverage["distinct_nontrivial"] = len({(c["prog"], tuple(c["input"]), c["w"]) for c in halts + divs
+                                               if refof[c["id"]].get("iters", 0) >= 2})
     rep.coverage["rule"] = ("cases: natively pre-classified halting / divergent programs (TLC re-derives the class "
                             "while validating); each is run with execute_limited at budgets %s on inplace and "
                             "irint/bcint/jit at levels 0-3 (2^62 only where the program halts); the outcome "
                             "(finished flag + event log) is validated by TLC (BFTrace): finished => complete "
                             "canonical log, unfinished => prefix, unfinished at 2^62 => only if the canonical run "
-                            "diverges; the return time is bounded by a watchdog of 10 s + 2 us per budget unit"
+                            "diverges; the return time is bounded by a watchdog of 10 s + 2 us per budget unit; "
+                            "non-trivial = distinct cases with at least two loop iterations"
                             % ", ".join(str(b) for b in BUDGETS))
     judged = adjudicate(rep, "C07", bins, "release", executed)
     settle(rep, "C07", bins, judged, shrink=False)
@@ -684,6 +688,7 @@ def c05(tier):
     refs = pool.simple_requests(hv, [{"op": "ref", "id": c["id"], "prog": c["prog"], "w": c["w"],
                                       "input": c["input"], "maxSteps": 5000, "maxEv": 250} for c in cases])
     rng = random.Random(sd + 7)
+    refof = {c["id"]: r for c, r in zip(cases, refs)}
     divs = [c for c, r in zip(cases, refs) if r and r.get("class") == "diverges"]
     halts = [c for c, r in zip(cases, refs) if r and r.get("class") == "halts" and r.get("iters", 0) >= 1]
     rng.shuffle(divs)
@@ -711,7 +716,10 @@ def c05(tier):
     rep.count("cases_halting", len(halts))
     rep.count("runs", sum(len(e[1]) for e in executed))
     rep.count("unbounded_runs_still_running_when_killed", still_running)
-    rep.coverage["distinct_nontrivial"] = len(divs) + len(halts)
+    # non-trivial: a diverger that emits at least one event first, or a halting case with >= 3 loop iterations
+    rep.coverage["distinct_nontrivial"] = (
+        len({(c["prog"], tuple(c["input"]), c["w"]) for c in divs if refof[c["id"]].get("nev", 0) >= 1}) +
+        len({(c["prog"], tuple(c["input"]), c["w"]) for c in halts if refof[c["id"]].get("iters", 0) >= 3}))
     rep.coverage["rule"] = ("divergent side: programs whose canonical run repeats a machine state (pre-selected "
                             "natively, proved by BF.tla's snapshot during validation: populations D, R, E, M); each "
                             "runs on inplace and irint/bcint/jit levels 0-3 with execute_limited at 10^3 and 10^6 (the "
@@ -719,7 +727,8 @@ def c05(tier):
                             "environment) and a sample through execute() under a watchdog (must still be running; "
                             "its streamed log must be a prefix of the divergent run); terminating side: halting "
                             "cases with >= 1 loop iteration must return from execute() on every backend; every "
-                            "recording is validated by TLC (BFTrace)")
+                            "recording is validated by TLC (BFTrace); counted as non-trivial: distinct divergent "
+                            "cases that emit at least one event, distinct halting cases with >= 3 loop iterations")
     judged = adjudicate(rep, "C05", bins, "release", executed)
     settle(rep, "C05", bins, judged, shrink=False)
     return rep.finish()
